@@ -534,14 +534,13 @@ def quantile_stub(s):
         a = T(alpha)
         if a.sort() == I:
             a = z3.ToReal(a)
-        S = vc.fresh_fn('S', I, R)
-        vc.assume(prefix_def(S, n, s.wf))                       # definitional: total weight (n for unit weights)
+        Sn = SWf(n) if s.weights is not None else z3.ToReal(n)    # total weight (sum of n unit weights = n)
         vc.oblige('call-pre[C13 Quantile.requires: n >= 1, 0 <= alpha <= 1, weights >= 0 with positive sum]',
-                  z3.And(n >= 1, a >= 0, a <= 1, forall_range(0, n, lambda i: s.wf(i) >= 0, 'i'), S(n) > 0))
+                  z3.And(n >= 1, a >= 0, a <= 1, forall_range(0, n, lambda i: s.wf(i) >= 0, 'i'), Sn > 0))
         q = vc.fresh('q', R)
         WLE, WLT = vc.fresh_fn('WLE', I, R), vc.fresh_fn('WLT', I, R)
-        vc.assume(prefix_def(WLE, n, lambda i: z3.If(col(i) <= q, s.wf(i) / S(n), 0)),
-                  prefix_def(WLT, n, lambda i: z3.If(col(i) < q, s.wf(i) / S(n), 0)))
+        vc.assume(prefix_def(WLE, n, lambda i: z3.If(col(i) <= q, s.wf(i) / Sn, 0)),
+                  prefix_def(WLT, n, lambda i: z3.If(col(i) < q, s.wf(i) / Sn, 0)))
         clauses = z3.And(exists_range(0, n, lambda i: q == col(i), 'i'),
                          z3.Implies(a != 0, z3.And(WLE(n) >= a, WLT(n) <= a)),
                          z3.Implies(a == 0, forall_range(0, n, lambda i: q <= col(i), 'i')))
@@ -607,11 +606,319 @@ class SampleQuantiles(_Stats):
 
 
 class SumExt(LemmaSumExt):
+    """extensionality: pointwise equal summands give equal sums"""
+    prop = 'C16'
+
+
+# ================================================================ 3. BolfiSample.__init__
+CH = z3.Function('chains', I, I, I, R)
+
+
+def sample_init_stub(self_, method_name=None, outputs=None, parameter_names=None, discrepancy_name=None, weights=None, **kwargs):
+    """Sample.__init__ seen from a subclass constructor: its contract SampleInit (call-pre = requires, effect = ensures)"""
+    vc = cur()
+    if not isinstance(outputs, ArrDict) or not isinstance(parameter_names, KeySeq):
+        raise OutOfSubset('Sample.__init__ stub: outputs / parameter_names of an unmodelled type')
+    d, pn = parameter_names.n, parameter_names.elt
+    vc.oblige('call-pre[Sample.__init__: parameter names are pairwise distinct]', names_distinct(d, pn))
+    vc.oblige('call-pre[Sample.__init__: every parameter name is a key of outputs]', names_in_outputs(d, outputs.dom, pn))
+    self_.method_name, self_.parameter_names, self_.meta = method_name, parameter_names, kwargs
+    self_.outputs = outputs.copy()
+    self_.discrepancy_name, self_.weights = discrepancy_name, weights
+    od = OrdDict.fresh('samples')
+    for nm, f in samples_ok(od, d, outputs.length, out=lambda k, i: outputs.at(k, i), pn=pn):
+        vc.assume(f)
+    self_.samples = od
+    vc.libcall('stub:Sample.__init__', dict(outputs=outputs, names=parameter_names))
+
+
+class BolfiInit(Contract):
+    target = 'elfi/methods/results.py::BolfiSample.__init__'
+    prop = 'C16'
+    fin = 3
+    fin_range = 7
+
+    def setup(self, vc):
+        C, M, d, w = z3.Ints('C M d w')          # N = w + M states per chain, M = N - w of them kept
+        vc.fin_bounds.extend([C, M, d, w])
+        N = w + M
+        chains = SArr(Cell(lambda c, t, j: CH(c, t, j), (C, N, d), 'real'))
+        s = ns(C=C, M=M, d=d, w=w, N=N, chains=chains, cell_elt=chains.cell.elt, names=KeySeq(d, PN), warmup=SInt(w), acc=SReal(z3.Real('acc_rate')))
+        s.self = make_object('BolfiStub', methods=dict(_vc_super_of=lambda self_, cls: _Super(lambda **kw: sample_init_stub(self_, **kw))))
+        return s, (s.self, 'BOLFI', chains, s.names, s.warmup), dict(acc_rate=s.acc)
+
+    def env(self, vc):
+        return dict(super=lambda cls, obj: obj._vc_super_of(cls), BolfiSample='BolfiSample', dict=zip_dict, reversed=vc_reversed)
+
+    def requires(self, s):
+        return [s.C >= 1, s.M >= 0, s.d >= 1, s.w >= 0, ('parameter names are pairwise distinct', names_distinct(s.d))]
+
+    def ensures(self, s, result):
+        o = s.self
+        od = getattr(o, 'samples', None)
+        if not isinstance(od, OrdDict) or not isinstance(getattr(o, 'outputs', None), ArrDict):
+            return [('Sample.__init__ was run on a dict of columns', z3.BoolVal(False))]
+        C, M, d, w = s.C, s.M, s.d, s.w
+        ch = o.meta.get('chains')
+        out = [('samples has one entry per parameter, entry j keyed by parameter_names[j], of length n_chains * (N - warmup)',
+                z3.And(od.L == d, forall_range(0, d, lambda j: z3.And(od.keyat(j) == PN(j), od.ln(PN(j)) == C * M), 'j'))),
+               ('samples[p_j][c*(N-w) + t] = chains[c, w+t, j]: each chain minus exactly the warm-up prefix, chain by chain',
+                forall_range(0, d, lambda j: forall_range(0, C, lambda c: forall_range(0, M, lambda t: od.elt(PN(j), c * M + t) == CH(c, w + t, j), 't'), 'c'), 'j')),
+               ('outputs[p_j][c*(N-w) + t] = chains[c, w+t, j]',
+                forall_range(0, d, lambda j: z3.And(o.outputs.dom(PN(j)), o.outputs.length == C * M, forall_range(0, C, lambda c: forall_range(0, M, lambda t: o.outputs.at(PN(j), c * M + t) == CH(c, w + t, j), 't'), 'c')), 'j')),
+               ('meta: n_chains, warmup and the extra keyword arguments',
+                z3.And(T(o.meta.get('n_chains')) == C, z3.BoolVal(o.meta.get('warmup') is s.warmup and o.meta.get('acc_rate') is s.acc and o.method_name == 'BOLFI' and o.parameter_names is s.names))),
+               ('meta: chains is a copy of the caller\'s array (equal content, different storage)',
+                z3.And(z3.BoolVal(isinstance(ch, SArr) and ch.ndim == 3 and ch.cell is not s.chains.cell), _eq3(ch, C, s.N, d))),
+               ('the caller\'s chains array is not modified', z3.And(z3.BoolVal(s.chains.cell.elt is s.cell_elt), _eq3(s.chains, C, s.N, d)))]
+        return out
+
+
+def _eq3(a, C, N, d):
+    if not (isinstance(a, SArr) and a.ndim == 3):
+        return z3.BoolVal(False)
+    return z3.And(a.shape[0] == C, a.shape[1] == N, a.shape[2] == d,
+                  forall_range(0, C, lambda c: forall_range(0, N, lambda t: forall_range(0, d, lambda j: a.at(c, t, j) == CH(c, t, j), 'j'), 't'), 'c'))
+
+
+# ================================================================ 4. gelman_rubin_statistic = the textbook split R-hat
+class ZInt(z3.ArithRef):
+    """an ndarray.shape entry as the analysed code sees it: an integer term with python-int behaviour (`//`, mixed arithmetic
+    with floats and proxies); with python ints and z3 terms it stays a z3 integer term, so the array model can use it as a size"""
+
+    def __init__(self, t):
+        z3.ArithRef.__init__(self, t.as_ast(), t.ctx)
+
+    @staticmethod
+    def _w(t):
+        return ZInt(t) if isinstance(t, z3.ArithRef) and t.sort() == I else t
+
+    def _plain(self):
+        return z3.ArithRef(self.as_ast(), self.ctx)
+
+    def _op(self, o, name, zop):
+        if isinstance(o, (Sym, float)):
+            return getattr(SInt(self._plain()), name)(o)
+        return ZInt._w(zop(o))
+
+    def __add__(self, o): return self._op(o, '__add__', lambda x: z3.ArithRef.__add__(self, x))
+    def __radd__(self, o): return self._op(o, '__radd__', lambda x: z3.ArithRef.__radd__(self, x))
+    def __sub__(self, o): return self._op(o, '__sub__', lambda x: z3.ArithRef.__sub__(self, x))
+    def __rsub__(self, o): return self._op(o, '__rsub__', lambda x: z3.ArithRef.__rsub__(self, x))
+    def __mul__(self, o): return self._op(o, '__mul__', lambda x: z3.ArithRef.__mul__(self, x))
+    def __rmul__(self, o): return self._op(o, '__rmul__', lambda x: z3.ArithRef.__rmul__(self, x))
+
+    def __truediv__(self, o):
+        if isinstance(o, (Sym, float, int)):
+            return SInt(self._plain()).__truediv__(o)          # python true division
+        return z3.ArithRef.__truediv__(self, o)                # z3-level (integer) division, engine internal
+
+    def __rtruediv__(self, o):
+        if isinstance(o, (Sym, float, int)):
+            return SInt(self._plain()).__rtruediv__(o)
+        return z3.ArithRef.__rtruediv__(self, o)
+
+    def __floordiv__(self, o):
+        return ZInt((SInt(self._plain()) // o).t)
+
+    __hash__ = z3.ArithRef.__hash__
+
+
+def forall_intro(vc, name, lo, hi, body, steps=None):
+    """universal generalisation: body(r0) is proved (obligation lemma-step[name]) for a FRESH r0 constrained only by
+    lo <= r0 < hi, with the help of the ghost steps `steps(r0)` (cuts / lemma instances about r0); then forall r in [lo, hi)
+    body(r) is used.  What was assumed about r0 is dropped again."""
+    r0 = vc.fresh_int('gen_r')
+    mark = len(vc.pc)
+    vc.assume(lo <= r0, r0 < hi)
+    if steps is not None:
+        steps(r0)
+    vc.oblige('lemma-step[%s (at a generic index)]' % name, body(r0))
+    del vc.pc[mark:]
+    vc.assume(forall_range(lo, hi, body, 'r'))
+
+
+def cut_qf(vc, name, fact):
+    """ghost assertion proved from the QUANTIFIER-FREE part of the path condition only (a stronger statement than the plain cut:
+    fewer hypotheses), for arithmetic steps that the solver loses among the quantified facts"""
+    from pyvc.core import _has_quantifier
+    full = vc.pc
+    vc.pc = [p for p in full if not _has_quantifier(p)]
+    try:
+        vc.oblige('lemma-step[%s]' % name, fact)
+    finally:
+        vc.pc = full
+    vc.assume(fact)
+
+
+def np_var(a, axis=None, ddof=0):
+    """numpy.var (assumed contract, sanity-tested): mean of the squared deviations from the mean along the axis with divisor
+    n - ddof; built from the same finite sums as np.sum so that hooks can tie them to definitional sums"""
+    a = npspec.asarray(a)
+    if not (isinstance(ddof, int) and ddof in (0, 1)):
+        raise OutOfSubset('np.var ddof %r' % (ddof,))
+    if a.ndim == 1 and axis in (None, 0, -1):
+        n = SInt(a.shape[0])
+        m = npspec.sum(a) / n
+        dev = a - m
+        out = npspec.sum(dev * dev) / (n - ddof)
+    elif a.ndim == 2 and axis in (1, -1):
+        n = SInt(a.shape[1])
+        ms = (npspec.sum(a, axis=1) / n).snapshot()
+        sn = a.snapshot()
+        dev2 = SArr(Cell(lambda i, j: (sn.at(i, j) - ms.at(i)) * (sn.at(i, j) - ms.at(i)), sn.shape, 'real'))
+        out = npspec.sum(dev2, axis=1) / (n - ddof)
+    else:
+        raise OutOfSubset('np.var rank %d axis %r' % (a.ndim, axis))
+    cur().libcall('np.var', dict(arr=a, res=out, ddof=ddof, axis=axis))
+    return out
+
+
+X = z3.Function('x', I, I, R)                 # the chains: X(c, t), C x N
+SM = z3.Function('SM', I, I, R)               # SM(r, k) = sum_{t<k} split(r, t)
+SV = z3.Function('SV', I, I, R)               # SV(r, k) = sum_{t<k} (split(r, t) - mean_r)^2
+SG = z3.Function('SG', I, R)                  # SG(k)    = sum_{r<k} mean_r
+SB = z3.Function('SB', I, R)                  # SB(k)    = sum_{r<k} (mean_r - grand mean)^2
+SS = z3.Function('SS', I, R)                  # SS(k)    = sum_{r<k} s2_r
+
+
+class RhatSpec:
+    """the textbook split R-hat (BDA3 11.4, Stan): every chain is cut into its first and second n = N div 2 draws (the last draw
+    of an odd-length chain is dropped), giving m = 2C sequences; W = mean of their unbiased variances, B = n/(m-1) * sum of squared
+    deviations of their means from the grand mean, R-hat = sqrt(((n-1)/n W + B/n) / W)"""
+
+    def __init__(self, C, N):
+        self.C, self.N = C, N
+        self.n, self.m = N / 2, 2 * C
+        self.nr, self.mr = z3.ToReal(self.n), z3.ToReal(self.m)
+
+    def split(self, r, t):
+        return X(r / 2, z3.If(r % 2 == 0, t, self.n + t))
+
+    def mu(self, r):
+        return SM(r, self.n) / self.nr
+
+    def s2(self, r):
+        return SV(r, self.n) / (self.nr - 1)
+
+    @property
+    def G(self):
+        return SG(self.m) / self.mr
+
+    @property
+    def Wv(self):
+        return SS(self.m) / self.mr
+
+    @property
+    def Bv(self):
+        return self.nr * SB(self.m) / (self.mr - 1)
+
+    def defs(self):
+        n, m = self.n, self.m
+        return [forall_range(0, m, lambda r: prefix_def(lambda k: SM(r, k), n, lambda t: self.split(r, t)), 'r'),
+                forall_range(0, m, lambda r: prefix_def(lambda k: SV(r, k), n, lambda t: (self.split(r, t) - self.mu(r)) * (self.split(r, t) - self.mu(r))), 'r'),
+                prefix_def(SG, m, self.mu), prefix_def(SB, m, lambda r: (self.mu(r) - self.G) * (self.mu(r) - self.G)), prefix_def(SS, m, self.s2)]
+
+    def rhat2(self):
+        return ((self.nr - 1) / self.nr * self.Wv + self.Bv / self.nr) / self.Wv
+
+
+class GelmanRubin(Contract):
+    target = 'elfi/methods/mcmc.py::gelman_rubin_statistic'
+    prop = 'C16'
+    fin = 6
+    fin_range = 8
+
+    def setup(self, vc):
+        C, N = z3.Ints('C N')
+        vc.fin_bounds.extend([C, N])
+        chains = SArr(Cell(lambda c, t: X(c, t), (ZInt(C), ZInt(N)), 'real'))
+        s = ns(C=C, N=N, chains=chains, spec=RhatSpec(C, N), cell_elt=chains.cell.elt)
+        return s, (chains,), {}
+
+    def env(self, vc):
+        return dict(np=np_module(var=np_var))
+
+    def requires(self, s):
+        sp = s.spec
+        return [s.C >= 1, ('at least two draws per half chain (sample variance defined)', s.N >= 4)] + sp.defs() + \
+            [('within-sequence variance is positive (chains not all constant)', sp.Wv > 0)]
+
+    def hooks(self, s):
+        sp = s.spec
+        n, m = sp.n, sp.m
+        sq = lambda v: v * v
+
+        def row_is_split(vc, base, r0):
+            """base[r0, t] = x[r0 div 2, (r0 mod 2) * n + t] for all t < n (generic t0; the index arithmetic is a quantifier-free cut)"""
+            def tsteps(t0):
+                cut_qf(vc, 'split index arithmetic: (r n + t) div 2n = r div 2, (r n + t) mod 2n = (r mod 2) n + t',
+                       z3.And((r0 * n + t0) / (2 * n) == r0 / 2, (r0 * n + t0) % (2 * n) == z3.If(r0 % 2 == 0, t0, n + t0)))
+                cut_qf(vc, 'element (r, t) of the reshaped array', base.at(r0, t0) == sp.split(r0, t0))
+            forall_intro(vc, 'row r of the array given to mean / var is the r-th half chain', 0, n, lambda t: base.at(r0, t) == sp.split(r0, t), tsteps)
+
+        def row_sums(name, P, summand, k_base, insts=None):
+            def h(vc, rec):
+                a, ps = rec['arr'], rec['ps']
+                if a.ndim != 2 or rec.get('axis') != 1:
+                    raise OutOfSubset('expected a row sum')
+                base = vc.libcalls['np.sum'][k_base]['arr']
+                vc.cut('%s: one row per half chain, n columns' % name, z3.And(a.shape[0] == m, a.shape[1] == n))
+
+                def steps(r0):
+                    row_is_split(vc, base, r0)
+                    for f in (insts(vc, r0) if insts else []):
+                        vc.cut('%s: instance of an established fact' % name, f)
+                    vc.cut('%s: summand of the code = summand of the definition' % name, forall_range(0, n, lambda t: a.at(r0, t) == summand(r0, t), 't'))
+                    vc.assume(use(stmt_sum_ext(n, lambda t: a.at(r0, t), lambda t: summand(r0, t), lambda k: ps(r0, k), lambda k: P(r0, k))))
+                forall_intro(vc, '%s: code row sum = definitional sum' % name, 0, m, lambda r: ps(r, n) == P(r, n), steps)
+            return h
+
+        def vec_sum(name, P, summand, insts):
+            """1-D sum over the m sequences; the pointwise equality of the summands is proved at a generic index from explicit instances"""
+            def h(vc, rec):
+                a = rec['arr']
+                vc.cut('%s: one entry per half chain' % name, a.shape[0] == m)
+
+                def steps(r0):
+                    for f in insts(vc, r0):
+                        vc.cut('%s: instance of an established fact' % name, f)
+                    cut_qf(vc, '%s: summand at a generic index' % name, a.at(r0) == summand(r0))
+                forall_intro(vc, '%s: summand of the code = summand of the definition' % name, 0, m, lambda r: a.at(r) == summand(r), steps)
+                vc.assume(use(stmt_sum_ext(m, lambda i: a.at(i), summand, rec['ps'], P)))
+                vc.cut('%s: code sum = definitional sum' % name, T(rec['res']) == P(m))
+            return h
+        psn = lambda vc, k: vc.libcalls['np.sum'][k]['ps']
+        res = lambda vc, k: T(vc.libcalls['np.sum'][k]['res'])
+
+        def h4(vc, rec):
+            vec_sum('between-sequence sum of squares', SB, lambda r: sq(sp.mu(r) - sp.G),
+                    lambda vc, r0: [psn(vc, 0)(r0, n) == SM(r0, n), res(vc, 3) == SG(m)])(vc, rec)
+            vc.assume(use(stmt_monotone_cum(m, z3.IntVal(0), m, lambda r: sq(sp.mu(r) - sp.G), SB)))
+            vc.cut('a sum of squares is non-negative', SB(m) >= 0)
+        return {('np.sum', 0): row_sums('sequence means', SM, sp.split, 0),
+                ('np.sum', 1): row_sums('sequence means inside var', SM, sp.split, 1),
+                ('np.sum', 2): row_sums('squared deviations', SV, lambda r, t: sq(sp.split(r, t) - sp.mu(r)), 1,
+                                        lambda vc, r0: [psn(vc, 1)(r0, n) == SM(r0, n)]),
+                ('np.sum', 3): vec_sum('grand mean', SG, sp.mu, lambda vc, r0: [psn(vc, 0)(r0, n) == SM(r0, n)]),
+                ('np.sum', 4): h4,
+                ('np.sum', 5): vec_sum('within-sequence variance', SS, sp.s2, lambda vc, r0: [psn(vc, 2)(r0, n) == SV(r0, n)])}
+
+    def ensures(self, s, result):
+        sp = s.spec
+        r = T(result)
+        return [('R-hat = sqrt(((n-1)/n W + B/n) / W) on the split chains (the non-negative root)', z3.And(r >= 0, r * r == sp.rhat2())),
+                ('the chains are not modified', z3.BoolVal(s.chains.cell.elt is s.cell_elt))]
+
+
+class MonotoneCum(LemmaMonotoneCum):
+    """prefix sums of non-negative terms are monotone"""
     prop = 'C16'
 
 
 CONTRACTS = [SampleInit('plain'), SampleInit('weighted'), SamplesArray(), NSamples(), Dim(), Discrepancies(True), Discrepancies(False),
-             SampleMeans(True), SampleMeans(False), SampleCIs(True), SampleCIs(False), SampleQuantiles(True), SampleQuantiles(False), SumExt()]
+             SampleMeans(True), SampleMeans(False), SampleCIs(True), SampleCIs(False), SampleQuantiles(True), SampleQuantiles(False), SumExt(),
+             BolfiInit(), GelmanRubin(), MonotoneCum()]
 TRUSTED_BASE = []
 ASSUMPTIONS = []
 NOT_PROVED = []
